@@ -1,9 +1,9 @@
 --------------------------- MODULE Invocations_Gen ---------------------------
 (* G-step for X05: the fixed cases of InvocationsScn plus NRand seeded scripts.       *)
 EXTENDS InvocationsScn, Json
-CONSTANTS OutFile, NRand
+CONSTANTS OutFile, NRand, Only      \* Only = "c08": just the transfer / checkpoint cases (used by checks/c08.py)
 VARIABLE x
-Cases == LET all == Fixed \o [n \in 1..NRand |-> Rand(n)] IN
+Cases == LET all == IF Only = "c08" THEN TokenCases ELSE Fixed \o [n \in 1..NRand |-> Rand(n)] IN
          [n \in 1..Len(all) |-> [fld \in DOMAIN all[n] \cup {"id"} |-> IF fld = "id" THEN n ELSE all[n][fld]]]
 ASSUME ndJsonSerialize(OutFile, Cases)
 GenInit == x = 0
